@@ -1,0 +1,53 @@
+//! Verification event tap (only compiled with the `verif-hooks` feature).
+//!
+//! The crate only *emits* events; every monitor lives outside of the repository.
+
+use std::cell::RefCell;
+
+/// An event observed inside the compiler.
+#[derive(Debug, Clone, Copy)]
+pub enum Event<'a> {
+    /// The tokenizer wrapper moved (or peeked) at the given source position.
+    CssStep {
+        kind: &'static str,
+        line: u32,
+        utf16_col: u32,
+    },
+    /// Something was appended to an output; `out` is the whole output so far.
+    CssAppend {
+        kind: &'static str,
+        utf16_len: u32,
+        out: &'a str,
+    },
+}
+
+thread_local! {
+    static TAP: RefCell<Option<Box<dyn FnMut(&Event)>>> = RefCell::new(None);
+}
+
+/// Install an event tap for the current thread (replacing any previous one).
+pub fn set_tap(f: Box<dyn FnMut(&Event)>) {
+    TAP.with(|tap| {
+        *tap.borrow_mut() = Some(f);
+    });
+}
+
+/// Remove the event tap of the current thread.
+pub fn clear_tap() {
+    TAP.with(|tap| {
+        if let Ok(mut tap) = tap.try_borrow_mut() {
+            *tap = None;
+        }
+    });
+}
+
+#[inline]
+pub(crate) fn emit(ev: Event) {
+    TAP.with(|tap| {
+        if let Ok(mut tap) = tap.try_borrow_mut() {
+            if let Some(f) = tap.as_mut() {
+                f(&ev);
+            }
+        }
+    });
+}
